@@ -8,7 +8,7 @@
    All statements hold for every configuration, every query and every T. *)
 From Coq Require Import ZArith List Bool.
 Import ListNotations.
-From MP Require Import Grid Grid_proofs Upstream Upstream_proofs.
+From MP Require Import Base Grid Grid_proofs Upstream Upstream_proofs Gen_compat Upstream_gen_proofs.
 Local Open Scope Z_scope.
 
 (* The srs_code of an upstream request is one of the configured supported_srs codes (aliases of the query SRS and of
@@ -322,3 +322,25 @@ Proof. exact url_v130. Qed.
 
 Theorem swap_bbox_is_an_involution : forall b, swap_bbox (swap_bbox b) = b.
 Proof. exact swap_bbox_involutive. Qed.
+
+(* Tie to the source.  gen_is_compatible is regenerated on every run from the body of WMSSource._is_compatible
+   (translator/specs/compat.py -> gen/Gen_compat.v, statement by statement, the loop over (self, other) unrolled, fail
+   closed).  The model's `compatible` IS this kernel: its `static_ok` argument is the conjunction static_part of the
+   tests that do not concern what an upstream is asked for, every other test (each source's own resolution range,
+   supported SRS, supported formats, coverage, forwarded dimensions) is the model's.  An edit of the method that drops
+   or weakens a test (e.g. the union of the two resolution ranges instead of each source's own) breaks this theorem. *)
+Theorem compatible_model_is_generated_from_source :
+  forall (A : Type) kn kd a b q other_is_wms (opacity_a opacity_b : option A)
+         tcolor_differ ttol_differ has_cov clip_differ other_opaque,
+    compatible kn kd
+      (static_part other_is_wms opacity_a opacity_b tcolor_differ ttol_differ has_cov clip_differ other_opaque) a b q =
+    gen_is_compatible other_is_wms opacity_a opacity_b
+      (k_is_some (w_rr a)) (rr_contains_of kn kd (w_rr a) q)
+      (k_is_some (w_rr b)) (rr_contains_of kn kd (w_rr b) q)
+      (negb (list_eqb code_eq (w_srs a) (w_srs b)))
+      (negb (list_eqb (fun x y => f_id x =? f_id y) (w_fmts a) (w_fmts b)))
+      tcolor_differ ttol_differ
+      (negb (cov_eqb a b))
+      has_cov clip_differ other_opaque
+      (negb (list_eqb dim_eqb (dims_for_params (w_fwd a) (q_dims q)) (dims_for_params (w_fwd b) (q_dims q)))).
+Proof. exact compatible_as_generated. Qed.
